@@ -425,7 +425,7 @@ class C10(engine.Property):
     run_wall_s = 240
     budget = {
         "quick": {"runs": 4000, "wall_cap_s": 1200, "chunk": 25},
-        "thorough": {"runs": 100000, "wall_cap_s": 5400, "chunk": 100},
+        "thorough": {"runs": 200000, "wall_cap_s": 5400, "chunk": 100},
     }
     rule = (
         "one evaluation = one seeded run: a world grown by a history (or a deep shape 3-20x "
